@@ -182,6 +182,18 @@ def build_worklist(dev, wl):
 # --------------------------------------------------------------------------- executing one call
 
 
+def py_arm(x):
+    """the arm argument: 0 / 1 / another int, or {"notint": "float:1.0"} for a value that is not an integer"""
+    if isinstance(x, dict):
+        return py_int(x)
+    return x
+
+
+def e_arm(x):
+    """for the model an arm that is not an integer is an arm that is neither 0 nor 1 (both are refused)"""
+    return cz(2) if isinstance(x, dict) else cz(x)
+
+
 def py_excl(x):
     """an exclusion-list entry: an int, or {"bad": "float:3.5" | "str:12" | "none"} for something that is not a well number"""
     if isinstance(x, dict):
@@ -269,7 +281,7 @@ def call(op, lws, wl):
             v = [[py_vol(x)] for x in vol["v"]]  # one-element lists instead of numbers
         else:
             v = tuple(py_vol(x) for x in vol["v"])
-        kwargs = dict(arm=op.get("arm", 0), label=op.get("label"))
+        kwargs = dict(arm=py_arm(op.get("arm", 0)), label=op.get("label"))
         if k == "evo_disp":
             kwargs["compositions"] = py_comps(op.get("comps"))
             fn = wl.evo_dispense
@@ -284,7 +296,7 @@ def call(op, lws, wl):
                       cleaner_location=(py_int(a["cleaner"][0]), py_int(a["cleaner"][1])))
         for f in ("arm",):
             if f in a:
-                kwargs[f] = a[f]
+                kwargs[f] = py_arm(a[f])
         for f in ("waste_vol", "cleaner_vol"):
             if f in a:
                 kwargs[f] = py_vol(a[f])
@@ -600,7 +612,7 @@ def e_cmdargs(op):
         v = "CVOther"
     return ("{| c_wells := %s; c_grid := %s; c_site := %s; c_volume := %s; c_liquid_class := %s; c_tips := %s; c_arm := %s |}"
             % (carr(op["wells"], cstr), e_int(op["grid"]), e_int(op["site"]), v, e_text(op["lc"]),
-               clist([e_tipelem(e) for e in op["tips"]]), cz(op.get("arm", 0))))
+               clist([e_tipelem(e) for e in op["tips"]]), e_arm(op.get("arm", 0))))
 
 
 def e_pyfi(t, default):
@@ -619,7 +631,7 @@ def e_washargs(a):
             "wa_arm := %s; wa_waste_vol := %s; wa_waste_delay := %s; wa_cleaner_vol := %s; wa_cleaner_delay := %s; "
             "wa_airgap := %s; wa_airgap_speed := %s; wa_retract_speed := %s; wa_fastwash := %s; wa_low_volume := %s |}"
             % (clist([e_tipelem(e) for e in a["tips"]]), e_int(a["waste"][0]), e_int(a["waste"][1]),
-               e_int(a["cleaner"][0]), e_int(a["cleaner"][1]), cz(a.get("arm", 0)),
+               e_int(a["cleaner"][0]), e_int(a["cleaner"][1]), e_arm(a.get("arm", 0)),
                e_pyfi(a.get("waste_vol"), "3"), g("waste_delay", 500), e_pyfi(a.get("cleaner_vol"), "4"),
                g("cleaner_delay", 500), g("airgap", 10), g("airgap_speed", 70), g("retract_speed", 30),
                g("fastwash", 1), g("low_volume", 0)))
